@@ -218,7 +218,7 @@ func isCurrent(facts map[string]interface{}) bool {
 	return b
 }
 
-func numInt(v interface{}) int {
+func c18NumInt(v interface{}) int {
 	xs := hx.NumInts([]interface{}{v})
 	if len(xs) == 0 {
 		return 0
@@ -226,7 +226,7 @@ func numInt(v interface{}) int {
 	return xs[0]
 }
 
-func strList(v interface{}) []string {
+func c18StrList(v interface{}) []string {
 	arr, _ := v.([]interface{})
 	out := make([]string, 0, len(arr))
 	for _, x := range arr {
@@ -323,30 +323,30 @@ func runC18(ctx *Ctx) error {
 		if err != nil {
 			return err
 		}
-		states += numInt(res["states"])
-		transitions += numInt(res["transitions"])
+		states += c18NumInt(res["states"])
+		transitions += c18NumInt(res["transitions"])
 		if c, _ := res["complete"].(bool); !c {
 			allComplete = false
 		}
 		ws, _ := res["witnesses"].(map[string]interface{})
 		for name, w := range ws {
 			wm, _ := w.(map[string]interface{})
-			witnesses = append(witnesses, witness{name: name, cfg: cfg, labels: strList(wm["schedule"])})
+			witnesses = append(witnesses, witness{name: name, cfg: cfg, labels: c18StrList(wm["schedule"])})
 		}
 	}
 	connRes, err := ctx.Driver.Call(map[string]interface{}{"op": "c18.conn", "frames": []int{1, 1}})
 	if err != nil {
 		return err
 	}
-	states += numInt(connRes["states"])
-	transitions += numInt(connRes["transitions"])
+	states += c18NumInt(connRes["states"])
+	transitions += c18NumInt(connRes["transitions"])
 	if ctx.Thorough() {
 		r2, err := ctx.Driver.Call(map[string]interface{}{"op": "c18.conn", "frames": []int{2, 2, 1}})
 		if err != nil {
 			return err
 		}
-		states += numInt(r2["states"])
-		transitions += numInt(r2["transitions"])
+		states += c18NumInt(r2["states"])
+		transitions += c18NumInt(r2["transitions"])
 		if w, _ := r2["witnesses"].(map[string]interface{}); len(w) > 0 && connRes["witnesses"] == nil {
 			connRes["witnesses"] = w
 		}
@@ -418,7 +418,7 @@ func runC18(ctx *Ctx) error {
 			return err
 		}
 		for k, p := range res["paths"].([]interface{}) {
-			if err := add(fmt.Sprintf("walk-%d-%d", ci, k), cfg, strList(p)); err != nil {
+			if err := add(fmt.Sprintf("walk-%d-%d", ci, k), cfg, c18StrList(p)); err != nil {
 				return err
 			}
 		}
@@ -428,7 +428,7 @@ func runC18(ctx *Ctx) error {
 				return err
 			}
 			for k, p := range res["paths"].([]interface{}) {
-				if err := add(fmt.Sprintf("prefix-%d-%d", ci, k), cfg, strList(p)); err != nil {
+				if err := add(fmt.Sprintf("prefix-%d-%d", ci, k), cfg, c18StrList(p)); err != nil {
 					return err
 				}
 			}
@@ -718,7 +718,7 @@ func runC18(ctx *Ctx) error {
 				}
 				acceptTried++
 				obs, _ := tm["obs"].(map[string]interface{})
-				closer := strList(tm["closer"])
+				closer := c18StrList(tm["closer"])
 				evs := 0
 				if f, ok := tm["evs"].(float64); ok {
 					evs = int(f)
